@@ -400,8 +400,12 @@ def finish(pid, tier, seed, res, kinds_now, level_claimed, assumptions, bounded_
     ev = {"property_id": pid, "tier": tier, "seed": seed, "level": level, "coverage": coverage,
           "assumptions": ASSUMPTIONS_COMMON + list(assumptions), "wall_s": round(time.time() - res.t0, 2),
           "violations": nviol}
-    os.makedirs(os.path.join(VERIF, "evidence"), exist_ok=True)
-    with open(os.path.join(VERIF, "evidence", f"{pid}.json"), "w") as f:
+    from .frontends import REPO as _REPO
+    # a run against a scratch copy of the repository (VERIF_REPO, used for the seeded changes) does not replace the
+    # evidence of the real tree
+    ev_dir = os.path.join(VERIF, "evidence") if os.path.realpath(_REPO) == "/repo" else os.path.join(VERIF, ".cache", "evidence_scratch")
+    os.makedirs(ev_dir, exist_ok=True)
+    with open(os.path.join(ev_dir, f"{pid}.json"), "w") as f:
         json.dump(ev, f, indent=1, default=str)
     print(f"[{pid}] {n_dis}/{n_obl} obligations discharged, solver time {solver_time:.1f}s, level={level}, "
           f"violations={nviol}, known={len(res.known)}, exit={exit_code}, wall={time.time() - res.t0:.1f}s")
